@@ -76,7 +76,7 @@ func planUnits(thorough bool) (units []unit, bounds map[string]interface{}) {
 			}
 		}
 		if p.backend != dnsfix.CDB {
-			per = per*3 + 30000 // compile + open of a RocksDB directory, in query units
+			per = per*3 + 2000 // RocksDB queries are slower; the store itself is shared by all sets of a shard
 		}
 		p.cost = per
 		units = append(units, unit{kind: "e2e", cost: per * 20, plan: p})
@@ -96,7 +96,7 @@ func planUnits(thorough bool) (units []unit, bounds map[string]interface{}) {
 				}
 				addPlan(e2ePlan{set: set, backend: dnsfix.CDB, ms: seq(1, 8), fams: fams, clients: []string{"aa"}, shuffle: true})
 			case !hasTag(set):
-				addPlan(e2ePlan{set: set, backend: dnsfix.CDB, ms: []int{1, 4, 8}, fams: []int{4}, clients: []string{"aa"}})
+				addPlan(e2ePlan{set: set, backend: dnsfix.CDB, ms: []int{1, 4}, fams: []int{4}, clients: []string{"aa"}})
 			}
 			if thorough && n <= 3 {
 				addPlan(e2ePlan{set: set, backend: dnsfix.RDBv2, ms: seq(1, 8), fams: []int{4, 6}, clients: both, addl: true, shuffle: true})
@@ -111,11 +111,20 @@ func planUnits(thorough bool) (units []unit, bounds map[string]interface{}) {
 	if thorough {
 		bounds["e2e_bounds"] = "CDB: sets of size 1-4: maxAnswer 1..8, A and AAAA, clients aa and unlocated, additional-section slots, shuffle variation; size 5 (all 792 sets): maxAnswer 1..8, A (AAAA for untagged sets), client aa, shuffle variation. RocksDB v2: sizes 1-3, RocksDB v1: sizes 1-2 (full configuration)"
 	} else {
-		bounds["e2e_bounds"] = "CDB: sets of size 1-3: maxAnswer 1..8, A and AAAA, clients aa and unlocated, additional-section slots, shuffle variation; size 4 (all 330 sets): maxAnswer {1,2,4,8}, A, client aa, shuffle variation; size 5: the 56 untagged sets, maxAnswer {1,4,8}, A. RocksDB v2: sizes 1-2 (maxAnswer {1,2,3,8}, otherwise the full configuration)"
+		bounds["e2e_bounds"] = "CDB: sets of size 1-3: maxAnswer 1..8, A and AAAA, clients aa and unlocated, additional-section slots, shuffle variation; size 4 (all 330 sets): maxAnswer {1,2,4,8}, A, client aa, shuffle variation; size 5: the 56 untagged sets, maxAnswer {1,4}, A. RocksDB v2: sizes 1-2 (maxAnswer {1,2,3,8}, otherwise the full configuration)"
 	}
 	// part 2
 	for n := 2; n <= 3; n++ {
 		vecs := propVectors(n, thorough || n == 2)
+		if n == 3 && !thorough {
+			vecs = nil
+			for _, v := range propVectors(3, false) {
+				uses3 := v[0] == 3 || v[1] == 3 || v[2] == 3
+				if !uses3 || vecText(v) == "1,2,3" || vecText(v) == "1,3,10" {
+					vecs = append(vecs, v)
+				}
+			}
+		}
 		for _, v := range vecs {
 			for i := range v {
 				c := int64(1)
@@ -139,7 +148,7 @@ func planUnits(thorough bool) (units []unit, bounds map[string]interface{}) {
 	if thorough {
 		bounds["prop_vectors"] = "all 16 ordered pairs and all 64 ordered triples"
 	} else {
-		bounds["prop_vectors"] = "all 16 ordered pairs; the 20 non-decreasing triples"
+		bounds["prop_vectors"] = "all 16 ordered pairs; 12 non-decreasing triples (the 10 over {1,2,10}, and 1,2,3 and 1,3,10)"
 	}
 	// part 3
 	scs := []sharedScen{{"probe", 2, 2, false}, {"probe", 3, 2, false}, {"probe", 3, 2, true}, {"runtime", 2, 2, false}, {"runtime", 3, 2, false}}
@@ -164,7 +173,7 @@ func assign(units []unit, n int) [][]unit {
 	sort.SliceStable(idx, func(a, b int) bool { return units[idx[a]].cost > units[idx[b]].cost })
 	load := make([]int64, n)
 	out := make([][]unit, n)
-	// RocksDB units first, onto half of the shards only (their sub-case databases are then shared)
+	// RocksDB units first, onto a quarter of the shards only (their sub-case databases are then shared)
 	sort.SliceStable(idx, func(a, b int) bool {
 		ra := units[idx[a]].kind == "e2e" && units[idx[a]].plan.backend != dnsfix.CDB
 		rb := units[idx[b]].kind == "e2e" && units[idx[b]].plan.backend != dnsfix.CDB
@@ -173,7 +182,7 @@ func assign(units []unit, n int) [][]unit {
 	for _, i := range idx {
 		lim := n
 		if units[i].kind == "e2e" && units[i].plan.backend != dnsfix.CDB {
-			lim = (n + 1) / 2
+			lim = (n + 3) / 4
 		}
 		best := 0
 		for s := 1; s < lim; s++ {
@@ -205,6 +214,9 @@ func main() {
 		closeWorlds()
 		clean()
 		os.Exit(code)
+	}
+	if r.Thorough() {
+		universeMaxSize = 3
 	}
 	units, bounds := planUnits(r.Thorough())
 	idx, n, isShard := r.Shard()
@@ -255,7 +267,7 @@ func main() {
 		r.Add("e2e_compiled_databases", es.worlds)
 		r.Add("e2e_configurations", es.configs)
 		r.Add("e2e_misaligned_slot_client_configurations", es.misaligned)
-		r.Add("e2e_rocksdb_evaluations_with_extra_selection_round", deviations)
+		r.Add("e2e_rocksdb_evaluations_outside_scripted_draw_range", deviations)
 		for k := 1; k <= 5; k++ {
 			r.Add(fmt.Sprintf("e2e_evaluations_size%d", k), es.bySize[k])
 		}
